@@ -64,8 +64,10 @@ func c20Gen(class string, seed uint64, tier string) *vfScenario {
 		f.A, f.B = 3, int64(rng.IntN(60))
 	case x < 93:
 		f.A = 4
-	case x < 96:
+	case x < 95:
 		f.A, f.B = 6, int64([]int{0, 0, 1, 4, 99}[rng.IntN(5)])
+	case x < 97:
+		f.A, f.B = 7, int64([]int{1, 1, 2, 7, 300}[rng.IntN(5)])
 	default:
 		f.A, f.B = 5, int64(1+rng.IntN(20))
 	}
@@ -139,6 +141,10 @@ func c20Enumerate(tier string, base uint64, emit func(*vfScenario)) {
 				add(vfFault{A: 5, B: 7})
 				add(vfFault{A: 6, B: 0})
 				add(vfFault{A: 6, B: 1})
+				if body[0] == wtData {
+					add(vfFault{A: 7, B: 1})
+					add(vfFault{A: 7, B: 40})
+				}
 			}
 		}
 	}
@@ -187,6 +193,17 @@ func c20Mutate(body []byte, f vfFault, seed uint64) []byte {
 	case 5:
 		for i := 0; i < int(f.B); i++ {
 			b = append(b, byte(0xa5+i))
+		}
+	case 7:
+		// a well-formed DATA reply that carries f.B more bytes than the request asked for
+		if len(b) >= 9 && b[0] == wtData {
+			n := binary.BigEndian.Uint32(b[5:])
+			if int(n) == len(b)-9 {
+				binary.BigEndian.PutUint32(b[5:], n+uint32(f.B))
+				for i := 0; i < int(f.B); i++ {
+					b = append(b, byte(0xd0+i))
+				}
+			}
 		}
 	case 6:
 		// a well-formed STATUS with code f.B (0 = SSH_FX_OK) in place of whatever the request expects
